@@ -20,6 +20,18 @@ CHECKS = {
             "violation with the journalled case). Sampling plus an exhaustive sweep of a small family; not a proof.",
             "Trusted: Python fractions, numpy; points never denormal (FTZ/DAZ).",
             "DESIGN.md section 2, C02"),
+    "C07": ("exploration",
+            "Hypothesis-generated spline/NURBS/user/composed functions, points and operation arguments; oracle = "
+            "independent tensor-product Cox-de Boor + quotient-rule reference and the documented formulas",
+            "Every evaluation route (single point, tensor grid, scattered points in xyz order, Jacobians, Hessians) of "
+            "generated B-spline/NURBS functions of sdim 1-3 with scalar/vector/matrix values is compared with an "
+            "independent reference; every geometry operation (translate, scale, rotate, apply_matrix, getitem, as_nurbs, "
+            "as_vector, copy, boundary by name and pair, reduced support, tensor_product, outer_sum/product with "
+            "broadcasting, cylinderize) is compared with its documented formula evaluated on reference values and the "
+            "operands must stay bit-identical; UserFunction/ComposedFunction/_BoundaryFunction routes and chain rule; "
+            "arcs, circles, disks and annuli are checked to lie on exact circles. Sampling, not proof.",
+            "Trusted: vp/ref/bspl.py, vp/ref/geo.py, numpy. Derivatives are compared only where they are continuous.",
+            "DESIGN.md section 2, C07"),
     "C19": ("exploration",
             "exhaustive enumeration of (p,n,mult) + Hypothesis-generated intervals/knot vectors/points against a "
             "linear-scan / exact-rational reference model",
